@@ -14,6 +14,9 @@ import (
 	"time"
 )
 
+// InLibraryFor is set by the monitors' library wrapper: how long a library call has been in progress.
+var InLibraryFor func() time.Duration
+
 // WorkerMain is `vcheck worker ...`: executes the cases of one shard.
 // Progress protocol (file <dir>/<tag>.log): "B k" before case k, "E k" after
 // it, "H k" when the in-process watchdog saw case k exceed its time limit.
@@ -65,10 +68,20 @@ func WorkerMain(args []string) int {
 			time.Sleep(250 * time.Millisecond)
 			k, st := atomic.LoadInt64(&curCase), atomic.LoadInt64(&curStart)
 			if k >= 0 && time.Now().UnixNano()-st > int64(limit)*int64(time.Second) {
-				fmt.Fprintf(logf, "H %d\n", k)
-				fmt.Fprintf(os.Stderr, "watchdog: case %d exceeded %ds\n", k, limit)
+				// a hang verdict needs the time to have been spent INSIDE a library call; a slow generator or
+				// oracle of the harness itself is reported as such (marker S) and is never a violation
+				inLib := time.Duration(0)
+				if InLibraryFor != nil {
+					inLib = InLibraryFor()
+				}
+				marker, code := "H", 3
+				if InLibraryFor != nil && inLib < time.Duration(limit)*time.Second/2 {
+					marker, code = "S", 5
+				}
+				fmt.Fprintf(logf, "%s %d\n", marker, k)
+				fmt.Fprintf(os.Stderr, "watchdog: case %d exceeded %ds (library call in progress for %s)\n", k, limit, inLib)
 				pprof.Lookup("goroutine").WriteTo(os.Stderr, 2)
-				os.Exit(3)
+				os.Exit(code)
 			}
 		}
 	}()
